@@ -25,6 +25,7 @@ import collections
 import queue as _queue
 import struct
 import threading
+import time as _real_time
 
 ENOENT, E2BIG, ENOEXEC, ENOMEM, EACCES, EEXIST = 2, 7, 8, 12, 13, 17
 
@@ -851,6 +852,18 @@ def install():
             return SimTimer(sess, interval, function, args or (), kwargs)
         return real_timer(interval, function, args, kwargs)
     cfmod.Timer = timer_factory
+
+    class _TimeShim:
+        """cflib.crazyflie's `time`: the incoming handler's `time.sleep(1)` (link is None) ends a sync pump"""
+
+        def __getattr__(self, name):
+            return getattr(_real_time, name)
+
+        def sleep(self, secs):
+            if _CURRENT[0] is not None:
+                raise PumpStop()
+            _real_time.sleep(secs)
+    cfmod.time = _TimeShim()
     return SimLink
 
 
